@@ -69,6 +69,41 @@ claim("C20", "exploration",
       "ElementTree as independent XML reader; label texts compared with the library's own str() of the document",
       "runtime monitoring: output monitor comparing the written file with the recorded Document (independent reader)")
 
+claim("C10", "exploration",
+      "boolean formula trees over integer predicates and clock bounds (exhaustive to depth 2, sampled to depth 4, plus "
+      "plain conjunctions) placed as guard and as invariant; a reference classifier written from the statement says "
+      "which must be rejected",
+      "soundness demanded for every tree, completeness only for conjunctions of individually accepted atoms",
+      "runtime monitoring: reference classifier vs recorded accept/reject verdicts (generated formulas, sanitizer build)")
+claim("C11", "fault_enumeration",
+      "every listed side-effect free context crossed with every write form (assignment operators, ++/--, element and "
+      "field writes, writer functions through call chains, every statement form, reference parameters) nested in "
+      "several wrappers, each with side-effect free twins as controls",
+      "enumeration over the listed contexts and forms; by-construction oracle",
+      "runtime monitoring: paired-model enumeration (write form vs pure twin) with recorded verdicts")
+claim("C12", "fault_enumeration",
+      "constness sources x write forms (incl. inline-if lvalues in both orders, comma, reference arguments to "
+      "functions, forwarding functions, template and partial instantiations), each with a mutable twin",
+      "enumeration over listed sources/forms to index/field depth 3",
+      "runtime monitoring: paired-model enumeration (const vs mutable twin) with recorded verdicts")
+claim("C13", "fault_enumeration",
+      "compile-time contexts x dependency expressions labelled mutable or pure by construction (direct, through "
+      "functions with call chains to depth 4, inside if/loops, through parameters), free/bound/forwarded process "
+      "parameters in array sizes",
+      "reference dependence labels by construction",
+      "runtime monitoring: labelled-dependency enumeration with recorded verdicts")
+claim("C14", "exploration",
+      "all ordered pairs of a 47-expression operand pool under 13 commutative operator spellings and inline-if with "
+      "negated condition (verdict and stripped result type kind), all ordered type pairs as (reference parameter, "
+      "argument) for functions and templates",
+      "depth-1 operand pool is exhaustive; channel capability ordering and range-free const int are excluded by design",
+      "runtime monitoring: metamorphic (operand swap) comparison of recorded typing results")
+claim("C17", "fault_enumeration",
+      "one restricting feature per model at every listed syntactic placement, plus metamorphic pairs for "
+      "uninstantiated templates and declaration order; reported methods compared with the reference detector",
+      "only the 'only if' direction is an alarm; over-caution is recorded as an observation",
+      "runtime monitoring: feature-placement enumeration with recorded supported-method verdicts")
+
 
 def main():
     props = [json.loads(l) for l in open(os.path.join(VERIF, "properties.jsonl"))]
